@@ -5,7 +5,7 @@ D=$(readlink -f "$1"); M=/tmp/mutconf_$$; mkdir -p $M
 rsync -a --exclude out --exclude .git --exclude contents /repo/ $M/repo/
 export GOFLAGS=-mod=mod GOPROXY=off GOSUMDB=off GOTOOLCHAIN=local
 cd $M/repo
-( sh $D/demo/run.sh > $M/clean.log 2>&1 ) && echo "DEMO-ON-CLEAN: pass" || { echo "DEMO-ON-CLEAN: FAIL"; tail -5 $M/clean.log; }
+( bash $D/demo/run.sh > $M/clean.log 2>&1 ) && echo "DEMO-ON-CLEAN: pass" || { echo "DEMO-ON-CLEAN: FAIL"; tail -5 $M/clean.log; }
 patch -p1 -s < $D/patch.diff || echo "PATCH-DOES-NOT-APPLY"
-( sh $D/demo/run.sh > $M/mut.log 2>&1 ) && echo "DEMO-ON-MUTANT: pass (unexpected)" || echo "DEMO-ON-MUTANT: fails (expected)"
+( bash $D/demo/run.sh > $M/mut.log 2>&1 ) && echo "DEMO-ON-MUTANT: pass (unexpected)" || echo "DEMO-ON-MUTANT: fails (expected)"
 cd /; rm -rf $M
